@@ -310,6 +310,8 @@ def run_async(case, max_steps=400):
     with virtual_env(case.get('t0', 0.0)) as env:
         with R.recording(env.now) as log:
             ar.log = log
+            if case.get('_event_cap'):
+                log.cap = case['_event_cap']        # tiny pipelines: a livelock shows long before the general cap
             ctx = Ctx(env, log)
             ar.ctx = ctx
             S = build_async(prog, log, ctx)
